@@ -14,6 +14,13 @@ def make_program(rnd):
         c = prog['countries'][0]
         if rnd.random() < 0.5:
             prog['flows'].append((c['code'], c['gov'], c['code'], c['hh'], 'GIFT', repr(round(rnd.uniform(0.2, 2.0), 3))))
+        if rnd.random() < 0.4:
+            # the SAME amount variable paid to two recipients
+            prog['flows'].append((c['code'], c['hh'], c['code'], c['gov'], 'GIFT2', repr(round(rnd.uniform(0.2, 1.0), 3))))
+            prog['flows'].append((c['code'], c['hh'], c['code'], c['roles']['bus'], 'GIFT2', repr(round(rnd.uniform(0.2, 1.0), 3))))
+        if c['variant'] == 'pc' and rnd.random() < 0.7:
+            # a holder whose deposits are a placeholder '0.0' made exogenous (like government demand)
+            prog['pension'] = (c['code'], '[%s]' % ', '.join(repr(round(rnd.uniform(2, 9), 1)) for _ in range(12)))
         return prog
     if kind == 'fx':
         return H7.make_program(rnd)
@@ -22,6 +29,13 @@ def make_program(rnd):
 
 def run_program(prog):
     mod, objs = H4.build(prog)
+    if prog.get('pension'):
+        from sfc_models.sector import Sector
+        (cc, path) = prog['pension']
+        co = [c for c in mod.CountryList if c.Code == cc][0]
+        pf = Sector(co, 'PF', has_F=True)
+        pf.AddVariable('DEM_DEP', 'deposits held by the pension fund', '0.0')
+        pf.SetExogenous('DEM_DEP', path)
     mod.main()
     return M.check_ledger(mod, prog)
 
